@@ -339,7 +339,7 @@ func (tr *Addition) Add(write func(w *Writer) error) error {
 		return ErrLockFailure
 	}
 
-	if err := tr.stack.checkAddition(tab.Name()); err != nil {
+	if err := tr.stack.checkAddition(tab.Name(), tr.newTables); err != nil {
 		return err
 	}
 
@@ -396,7 +396,9 @@ func (tr *Addition) Commit() error {
 	return tr.stack.reload(true)
 }
 
-func (s *Stack) checkAddition(tabname string) error {
+// checkAddition validates the refs in the new table `tabname` against
+// the stack plus the tables `added` earlier in the same transaction.
+func (s *Stack) checkAddition(tabname string, added []string) error {
 	if s.cfg.SkipNameCheck {
 		return nil
 	}
@@ -427,7 +429,33 @@ func (s *Stack) checkAddition(tabname string) error {
 		recs = append(recs, rec)
 	}
 
-	return validateRefRecordAddition(s.Merged(), recs)
+	if len(added) == 0 {
+		return validateRefRecordAddition(s.Merged(), recs)
+	}
+
+	var tabs []Table
+	for _, t := range s.stack {
+		tabs = append(tabs, t)
+	}
+	for _, nm := range added {
+		bs, err := NewFileBlockSource(filepath.Join(s.reftableDir, nm))
+		if err != nil {
+			return err
+		}
+		t, err := NewReader(bs, nm)
+		if err != nil {
+			bs.Close()
+			return err
+		}
+		defer t.Close()
+		tabs = append(tabs, t)
+	}
+	m, err := NewMerged(tabs, s.cfg.HashID)
+	if err != nil {
+		return err
+	}
+	m.suppressDeletions = true
+	return validateRefRecordAddition(m, recs)
 }
 
 // non-deterministic random generator.
